@@ -8,6 +8,7 @@ import (
 	"os"
 	"os/exec"
 	"sync"
+	"time"
 
 	"github.com/xujiajun/nutsdb"
 	"verifharness/internal/hx"
@@ -76,8 +77,26 @@ func (g *gen) openImage(files map[string][]byte, dir string, ds bool) imgResult 
 	var out, errb bytes.Buffer
 	cmd.Stdout, cmd.Stderr = &out, &errb
 	err := cmd.Run()
+	for attempt := 0; err != nil && attempt < 3; attempt++ {
+		if _, ok := err.(*exec.ExitError); ok {
+			break // the child ran and died: that is an observation
+		}
+		// the child could not be started (fork/exec failure under load): not an observation
+		time.Sleep(200 * time.Millisecond)
+		out.Reset()
+		errb.Reset()
+		cmd = exec.Command(cmd.Path, cmd.Args[1:]...)
+		cmd.Stdout, cmd.Stderr = &out, &errb
+		err = cmd.Run()
+	}
 	os.RemoveAll(dir)
 	var r imgResult
+	if err != nil {
+		if _, ok := err.(*exec.ExitError); !ok {
+			fmt.Fprintln(os.Stderr, "harness: cannot start the image-opening child process:", err)
+			os.Exit(2)
+		}
+	}
 	if err != nil || json.Unmarshal(out.Bytes(), &r) != nil {
 		tail := errb.String()
 		if len(tail) > 300 {
